@@ -5,3 +5,133 @@
 
 // owner: group a7. `super::super` is the repository module `nts`.
 use super::super::*;
+
+use super::super::messages::{KeyExchangeResponse as KeResp, Request as KeReq};
+use super::super::record::NtsRecord as Rec;
+
+/// Plain-data view of a parsed key-exchange request (private id enums flattened to u16,
+/// cipher objects flattened to their key bytes) so the driver can compare two values.
+#[derive(Debug, Clone, PartialEq, Eq, Hash)]
+pub enum ReqView {
+    KeyExchange {
+        algorithms: Vec<u16>,
+        protocols: Vec<u16>,
+        denied: Vec<String>,
+    },
+    FixedKey {
+        authentication: String,
+        c2s: Vec<u8>,
+        s2c: Vec<u8>,
+        algorithm: u16,
+        protocol: u16,
+        keep_alive: bool,
+    },
+    Support {
+        authentication: String,
+        wants_protocols: bool,
+        wants_algorithms: bool,
+        keep_alive: bool,
+    },
+}
+
+pub fn request_view(r: &KeReq<'_>) -> ReqView {
+    match r {
+        KeReq::KeyExchange {
+            algorithms,
+            protocols,
+            denied_servers,
+        } => ReqView::KeyExchange {
+            algorithms: algorithms.iter().map(|a| u16::from(*a)).collect(),
+            protocols: protocols.iter().map(|p| u16::from(*p)).collect(),
+            denied: denied_servers.iter().map(|d| d.to_string()).collect(),
+        },
+        KeReq::FixedKey {
+            authentication,
+            c2s_key,
+            s2c_key,
+            algorithm,
+            protocol,
+            keep_alive,
+        } => ReqView::FixedKey {
+            authentication: authentication.to_string(),
+            c2s: c2s_key.key_bytes().to_vec(),
+            s2c: s2c_key.key_bytes().to_vec(),
+            algorithm: u16::from(*algorithm),
+            protocol: u16::from(*protocol),
+            keep_alive: *keep_alive,
+        },
+        KeReq::Support {
+            authentication,
+            wants_protocols,
+            wants_algorithms,
+            keep_alive,
+        } => ReqView::Support {
+            authentication: authentication.to_string(),
+            wants_protocols: *wants_protocols,
+            wants_algorithms: *wants_algorithms,
+            keep_alive: *keep_alive,
+        },
+    }
+}
+
+/// Plain-data view of a parsed key-exchange response.
+#[derive(Debug, Clone, PartialEq, Eq, Hash)]
+pub struct RespView {
+    pub protocol: u16,
+    pub algorithm: u16,
+    pub cookies: Vec<Vec<u8>>,
+    pub server: Option<String>,
+    pub port: Option<u16>,
+    pub keep_alive: bool,
+}
+
+pub fn response_view(r: &KeResp<'_>) -> RespView {
+    RespView {
+        protocol: u16::from(r.protocol),
+        algorithm: u16::from(r.algorithm),
+        cookies: r.cookies.iter().map(|c| c.to_vec()).collect(),
+        server: r.server.as_ref().map(|s| s.to_string()),
+        port: r.port,
+        keep_alive: r.keep_alive,
+    }
+}
+
+/// Variant index of a record (shape signatures / evidence only).
+pub fn record_kind(r: &Rec<'_>) -> u8 {
+    match r {
+        Rec::EndOfMessage => 0,
+        Rec::NextProtocol { .. } => 1,
+        Rec::Error { .. } => 2,
+        Rec::Warning { .. } => 3,
+        Rec::AeadAlgorithm { .. } => 4,
+        Rec::NewCookie { .. } => 5,
+        Rec::Server { .. } => 6,
+        Rec::Port { .. } => 7,
+        Rec::KeepAlive => 8,
+        Rec::SupportedNextProtocolList { .. } => 9,
+        Rec::SupportedAlgorithmList { .. } => 10,
+        Rec::FixedKeyRequest { .. } => 12,
+        Rec::NtpServerDeny { .. } => 13,
+        Rec::Authentication { .. } => 14,
+        Rec::Unknown { .. } => 255,
+    }
+}
+
+/// Variant name of an `NtsError` (evidence / shape signatures only).
+pub fn nts_error_kind(e: &NtsError) -> &'static str {
+    match e {
+        NtsError::IO(_) => "io",
+        NtsError::Tls(_) => "tls",
+        NtsError::Dns(_) => "dns",
+        NtsError::UnrecognizedCriticalRecord => "unrecognized-critical",
+        NtsError::Invalid => "invalid",
+        NtsError::NoCookie => "no-cookie",
+        NtsError::NoOverlappingProtocol => "no-overlap-protocol",
+        NtsError::NoOverlappingAlgorithm => "no-overlap-algorithm",
+        NtsError::UnknownWarning(_) => "unknown-warning",
+        NtsError::Error(_) => "remote-error",
+        NtsError::AeadNotSupported(_) => "aead-not-supported",
+        NtsError::IncorrectSizedKey => "incorrect-sized-key",
+        NtsError::NotPermitted => "not-permitted",
+    }
+}
